@@ -120,7 +120,7 @@ func vary(r *rand.Rand, ops []spec.Op, v variation) []spec.Op {
 	if v.toggle {
 		var out []spec.Op
 		registered := map[string]bool{}
-		if base.K != spec.KNew {
+		if base.K == spec.KUGC {
 			registered["http"], registered["https"], registered["mailto"] = true, true, true // UGCPolicy
 		}
 		for _, o := range sws {
@@ -211,6 +211,16 @@ func vary(r *rand.Rand, ops []spec.Op, v variation) []spec.Op {
 	if v.fresh {
 		for i := range out {
 			out[i].Fresh = r.Intn(2) == 0
+		}
+	}
+	if v.order {
+		// the matcher calls inside one AllowStyles chain, in another order
+		for i := range out {
+			if len(out[i].Chain) > 1 {
+				ch := append([]string{}, out[i].Chain...)
+				r.Shuffle(len(ch), func(a, b int) { ch[a], ch[b] = ch[b], ch[a] })
+				out[i].Chain = ch
+			}
 		}
 	}
 	return out
@@ -469,8 +479,34 @@ func c17Work(ctx *core.Ctx, part string) {
 		if r.Intn(3) == 0 {
 			ops = append(ops, helperOverlap(r)...)
 		}
+		// some style rules carry two or three matcher calls in one chain; the order inside the chain must
+		// not matter either (targeted probes: values only one of the matchers accepts)
+		var chainProbes []string
+		for i := range ops {
+			o := &ops[i]
+			if o.K != spec.KAllowStyles || len(o.Attrs) == 0 || r.Intn(3) > 0 || (o.Matcher != "enum" && o.Matcher != "re") {
+				continue
+			}
+			if o.Re == "" {
+				o.Re = gen.ValLib[r.Intn(6)].Re
+			}
+			if len(o.Enum) == 0 {
+				o.Enum = []string{"red", "Left", "10px"}
+			}
+			o.Chain = []string{"enum", "re"}
+			good, _ := gen.Pools(o.Re)
+			el := "span"
+			if o.Scope == "els" && len(o.Names) > 0 {
+				el = o.Names[0]
+			} else if o.Scope == "match" {
+				el = "my-x"
+			}
+			for _, v := range append(append([]string{}, good...), o.Enum...) {
+				chainProbes = append(chainProbes, fmt.Sprintf(`<%s style="%s">t</%s><span style="%s">u</span><my-x style="%s">v</my-x>`, el, gen.CanonEscape(o.Attrs[0]+": "+v), el, gen.CanonEscape(o.Attrs[0]+": "+v), gen.CanonEscape(o.Attrs[0]+": "+v)))
+			}
+		}
 		envA := NewEnv(ops)
-		probes := c17Probes(r, envA, nProbe)
+		probes := append(c17Probes(r, envA, nProbe), chainProbes...)
 		want := make([]string, len(probes))
 		for i, p := range probes {
 			want[i] = envA.Pol.Sanitize(p)
